@@ -19,11 +19,12 @@ impl<'a, 'b, S: ShortGroupSignatureScheme> SignatureVerifier<'a, 'b, S> {
         statement: &'a SignatureStatement<S>,
         signature_proof: &'b SignatureProof<S>,
     ) -> Self {
-        let disclosed_messages: Vec<(usize, Scalar)> = signature_proof
+        let mut disclosed_messages: Vec<(usize, Scalar)> = signature_proof
             .disclosed_messages
             .iter()
             .map(|(idx, sc)| (*idx, *sc))
             .collect();
+        disclosed_messages.sort_by_key(|(idx, _)| *idx);
         Self {
             statement,
             signature_proof,
